@@ -5,6 +5,7 @@ import (
 	"fmt"
 	"io"
 	"reflect"
+	"runtime"
 	"strings"
 	"testing"
 	"time"
@@ -57,6 +58,78 @@ func (c *countingReader) ReadRune() (rune, int, error) {
 	r, sz := utf8.DecodeRune(c.b[c.pos:])
 	c.pos += sz
 	return r, sz, nil
+}
+
+// writeOnly hides every method of the destination but Write.
+type writeOnly struct{ w io.Writer }
+
+func (w writeOnly) Write(p []byte) (int, error) { return w.w.Write(p) }
+
+// c06ShortLived: a producer loop on one stream - every value is garbage as soon as it is written, and collections
+// run in between, so the memory of an earlier value is handed out again for a later one. Whatever the encoder
+// remembers about values it has written must not take the new object for the old one.
+func c06ShortLived(via string, n int) string {
+	var buf bytes.Buffer
+	tm, nm := hessian.ExtractTypeNameMap([]interface{}{&zoo.Inner{}, &zoo.SlVal{L: []zoo.Inner{{}}}})
+	var enc *hessian.Encoder
+	var ser hessian.Serializer
+	if via == "Serializer" {
+		ser = hessian.NewSerializer(tm, nm)
+	} else {
+		enc = hessian.NewEncoder(&buf, nm)
+	}
+	for i := 0; i < n; i++ {
+		var v interface{}
+		switch i % 3 {
+		case 0:
+			v = &zoo.Inner{A: int32(i), S: "p"}
+		case 1:
+			v = zoo.Inner{A: int32(i), S: "v"} // by value: the encoder works on a copy of its own
+		default:
+			v = &zoo.SlVal{L: []zoo.Inner{{A: int32(i), S: "a"}, {A: int32(-i), S: "b"}}}
+		}
+		var err error
+		switch {
+		case enc != nil:
+			err = enc.WriteObject(v)
+		case i == 0:
+			err = ser.WriteTo(&buf, v)
+		default:
+			err = ser.Write(v)
+		}
+		if err != nil {
+			return fmt.Sprintf("write #%d failed: %v", i, err)
+		}
+		if i%37 == 36 {
+			runtime.GC()
+		}
+	}
+	rd := &countingReader{b: buf.Bytes()}
+	dec := hessian.NewDecoder(rd, tm)
+	for i := 0; i < n; i++ {
+		out, err := dec.ReadObject()
+		if err != nil {
+			return fmt.Sprintf("read #%d failed: %v", i, err)
+		}
+		got := int32(0)
+		switch x := out.(type) {
+		case *zoo.Inner:
+			got = x.A
+		case zoo.Inner:
+			got = x.A
+		case *zoo.SlVal:
+			if len(x.L) != 2 || x.L[1].A != int32(-i) {
+				return fmt.Sprintf("read #%d: list came back as %+v", i, x.L)
+			}
+			got = x.L[0].A
+		default:
+			return fmt.Sprintf("read #%d: %T", i, out)
+		}
+		if got != int32(i) {
+			return fmt.Sprintf("value #%d of a stream of short-lived values came back as value #%d (an earlier value's memory was reused and taken for the earlier value)", i, got)
+		}
+	}
+	return ""
 }
 
 var hessianPkg = reflect.TypeOf(hessian.ClassDef{}).PkgPath()
@@ -136,6 +209,14 @@ func TestC06(t *testing.T) {
 	cfg.MaxBig = 40
 	cfg.Budget = 250
 	cfg.NoBigStrings = true
+	for _, via := range []string{"Encoder/Decoder", "Serializer"} {
+		if msg := c06ShortLived(via, 4000); msg != "" {
+			directFail(t, "C06", map[string]interface{}{"api": via, "stream": "4000 short-lived values, a collection every 37 writes"}, "C06 %s: %s", via, msg)
+		}
+		r.Eval()
+		r.NonTrivial(av.Hash("short-lived/" + via))
+		r.Label("stream of short-lived values with collections in between")
+	}
 	check(t, "C06", func(rt *rapid.T, c *caseInfo) {
 		n := rapid.IntRange(1, 12).Draw(rt, "streamLen")
 		if rapid.IntRange(0, 7).Draw(rt, "long") == 0 {
@@ -260,6 +341,11 @@ func TestC06(t *testing.T) {
 				kinds = append(kinds, fmt.Sprintf("message-of-%d-containers", cnt+1))
 				ptrs = append(ptrs, l[2])
 				classes = append(classes, reflect.TypeOf(zoo.K00{}))
+			case k == 7 && len(ptrs) > 0 && rapid.Bool().Draw(rt, "keyedByEarlierPointer"):
+				// a map one of whose KEYS is an object sent earlier on the stream: the key travels as a back-reference
+				kp := ptrs[rapid.IntRange(0, len(ptrs)-1).Draw(rt, "keyPointer")]
+				vals = append(vals, map[interface{}]interface{}{kp: "owner", "n": int32(len(vals))})
+				kinds = append(kinds, "map-keyed-by-earlier-pointer")
 			case k == 2:
 				vals = append(vals, rapid.SampledFrom([]interface{}{nil, "", time.Time{}, map[string]int32{}, (*zoo.Inner)(nil)}).Draw(rt, "nullish"))
 				kinds = append(kinds, "null-rendered")
@@ -297,10 +383,23 @@ func TestC06(t *testing.T) {
 		offsets := make([]int, len(vals))
 		var ser hessian.Serializer
 		var enc *hessian.Encoder
+		// half of the streams go to a destination that is an io.Writer and nothing else (a connection, a file, a
+		// compressor), the others to the bytes.Buffer itself, which also offers WriteByte, WriteString, ReadFrom ...
+		var dst io.Writer = &buf
+		plainDst := rapid.Bool().Draw(rt, "destinationIsOnlyAWriter")
+		if plainDst {
+			dst = writeOnly{&buf}
+		}
 		if via == "Serializer" {
 			ser = hessian.NewSerializer(tm, nm)
+			if plainDst && rapid.Bool().Draw(rt, "oneShotFirst") {
+				// ... after a one-shot call of the same instance, whose own destination is a buffer of the library's
+				if _, err := ser.ToBytes(vals[0]); err != nil {
+					failf(rt, c, "C06 Serializer: ToBytes(%s) failed: %v", descs[0], err)
+				}
+			}
 		} else {
-			enc = hessian.NewEncoder(&buf, nm)
+			enc = hessian.NewEncoder(dst, nm)
 		}
 		// in one case of five the stream is written by another implementation: the reference encoder, one
 		// instance for the whole stream, with its own legal choices (type names and class definitions given once
@@ -344,7 +443,7 @@ func TestC06(t *testing.T) {
 				case enc != nil:
 					err = enc.WriteObject(v)
 				case i == 0:
-					err = ser.WriteTo(&buf, v)
+					err = ser.WriteTo(dst, v)
 				default:
 					err = ser.Write(v)
 				}
@@ -486,6 +585,9 @@ func TestC06(t *testing.T) {
 		r.Label("api:" + via)
 		if byPeer {
 			r.Label("stream written by the reference encoder")
+		}
+		if plainDst {
+			r.Label("destination is an io.Writer and nothing else")
 		}
 		if rd.eofWithData {
 			r.Label("the reader's last Read reports io.EOF together with its data")
